@@ -21,6 +21,7 @@ type specVal struct {
 }
 
 type specEnv struct {
+	specPkg *types.Package // names in the clause resolve in this package instead of the verified function's
 	v       *FnVC
 	fr      *frame
 	st, old *State
@@ -59,6 +60,9 @@ func (e *specEnv) with(name string, sv specVal) *specEnv {
 }
 
 func (e *specEnv) pkgOfFn() *types.Package {
+	if e.specPkg != nil {
+		return e.specPkg // a clause declared in the contract file of that package (type / child invariants)
+	}
 	f := e.fr.fn
 	for f != nil {
 		if f.Pkg != nil {
@@ -1211,6 +1215,17 @@ func (e *specEnv) call(c SCall) specVal {
 				panic(specErr("%s(): cannot resolve function %v", id.Name, c.Args[0]))
 			}
 			return specVal{V: Sc{e.st.ghostGet(id.Name + "#" + FuncKey(callee))}, T: types.Typ[types.Bool]}
+		case "calls":
+			// calls(f): the number of direct calls of f made so far by the function under contract
+			callee := e.resolveFuncRef(c.Args[0])
+			if callee == nil {
+				panic(specErr("calls(): cannot resolve function %v", c.Args[0]))
+			}
+			n := tZero
+			if t, ok := e.st.ghost["count#"+FuncKey(callee)]; ok {
+				n = t
+			}
+			return specVal{V: Sc{n}, T: types.Typ[types.Int]}
 		case "alive":
 			// alive(p): p is nil or an object that exists in the current state (so that an object allocated later
 			// is a different one); needed under quantifiers, where loaded pointers get no typing assumption
